@@ -142,5 +142,21 @@ func VC_C12_lookup_continues() {
 	verifAssert(b.PkgName() == cur, "C12.pkg.only-next-lookup")
 	u2 := b.ExportFunc("f2")
 	verifAssert(u2.pkgName == cur, "C12.pkg.second-lookup-uses-current")
+	// lookups made under a Pkg override are continued too, and stay apart from a
+	// same-named function of the current package
+	u3 := b.Pkg("some/other/pkg").ExportFunc("f1")
+	verifAssert(u3 == u, "C12.pkg.override-lookup-continued")
+	verifAssert(b.PkgName() == cur, "C12.pkg.only-next-lookup")
+	u4 := b.ExportFunc("f1")
+	verifAssert(u4 != u, "C12.pkg.same-name-in-current-package-is-another-mocker")
+	verifAssert(u4.pkgName == cur, "C12.pkg.second-lookup-uses-current")
+	u5 := b.ExportFunc("f1")
+	verifAssert(u5 == u4, "C12.lookup.same-live-mocker")
+	s1 := b.Pkg("some/other/pkg").ExportStruct("conn")
+	s2 := b.Pkg("some/other/pkg").ExportStruct("conn")
+	verifAssert(s1 == s2, "C12.pkg.override-lookup-continued")
+	s3 := b.ExportStruct("conn")
+	verifAssert(s3 != s1, "C12.pkg.same-name-in-current-package-is-another-mocker")
+	verifAssert(b.PkgName() == cur, "C12.pkg.only-next-lookup")
 	verifReached("C12.lookup")
 }
